@@ -78,6 +78,7 @@ class Fn:
         self.ir = None
         self.params = []  # helper: names of parser-valued / literal parameters
         self.span_param = None
+        self.lexeme = False
 
     @property
     def memo(self):
@@ -111,6 +112,29 @@ class Grammar:
         for fn in self.fns.values():
             if fn.kind == 'parser':
                 self._build_parser(fn)
+        self._mark_lexemes()
+
+    def _mark_lexemes(self):
+        """lexeme = returns Locate/Span, or joins fragments with `concat` itself or through a local helper function"""
+        direct = {}
+        calls = {}
+        for name, f in self.fns.items():
+            body = f.item.get('body')
+            direct[name] = any(sx.is_call(n, 'concat') for n in sx.walk(body)) and name != 'concat'
+            calls[name] = {n['f']['p'] for n in sx.walk(body) if n.get('k') == 'call' and sx.is_path(n['f']) and n['f']['p'] in self.fns
+                           and self.fns[n['f']['p']].kind == 'other'}
+        uses = dict(direct)
+        changed = True
+        while changed:
+            changed = False
+            for name in self.fns:
+                if not uses[name] and any(uses.get(c) for c in calls[name]):
+                    uses[name] = True
+                    changed = True
+        for name, f in self.fns.items():
+            out = f.out_ty
+            f.lexeme = bool((out is not None and out.get('k') == 'path' and out['p'] in ('Locate', 'Span')) or uses[name])
+        self.concat_helpers = {n for n, f in self.fns.items() if f.kind == 'other' and uses[n] and n != 'concat'}
 
     # -------------------------------------------------------------- pexpr
     def pexpr(self, e, fn, env=None):
